@@ -470,6 +470,46 @@ def run(F, rep, tier):
             rep.ok('R3.7', 'set_index "precedence"', 'arm present')
         else:
             rep.viol('R3.7', si + '|precedence-arm', 'assigning f::precedence is no longer handled', b.loc(0))
+    # ---------------- R3.8
+    rep.rule('R3.8', 'a merged chain stays the operator it was: the function every try_chain override returns is built from its own type '
+             '(Rc<Self> coerced to Rc<dyn Builtin>), so `a ziplongest b ziplongest c` is still applied by ZipLongest', exhaustive=True)
+    n8 = 0
+    for imp in F.impls_of('core::Builtin'):
+        fn = F.impl_fn(imp, 'try_chain')
+        if not fn or not F.has_fn(fn):
+            continue
+        b8 = F.body(fn)
+        ty = imp['self_ty']
+        for bb, s_ in b8.aggregates():
+            if s_[2][2] == 'core::Func' and s_[2][4] == 'Builtin':
+                n8 += 1
+                og = origins(b8, s_[2][5][0], passthru=('new', 'from', 'into'))
+                casts = [o for o in og if o[0] == 'cast' and '->' in str(o[2])]
+                froms = sorted({str(o[2]).split('->')[0] for o in casts})
+                if casts and len(casts) == len(og) and all(f == 'std::rc::Rc<%s>' % ty for f in froms):
+                    rep.ok('R3.8', ty, 'returns Rc<%s>' % ty)
+                elif not casts:
+                    rep.error('R3.8', '%s::try_chain: cannot see the concrete type of the returned builtin (%s)' % (ty, sorted(str(o[:2]) for o in og)))
+                else:
+                    rep.viol('R3.8', 'try_chain|%s|returns-other-type' % ty, '%s::try_chain returns a builtin of type %s: the merged chain is applied by a different operator than the one written' % (ty, froms), b8.loc(bb))
+    rep.floor('R3.8', 'try_chain results', n8, 15)
+    # ---------------- R3.9
+    rep.rule('R3.9', 'assigning f::precedence changes the level and nothing else: set_index writes the number through the f64 field of the '
+             'existing Precedence, or rebuilds it with the associativity taken from the old value - never with a constant Assoc')
+    sib = F.body(F.anchor('eval::set_index'))
+    stores = [bb for bb in sib.reach for s_ in sib.stmts(bb) if s_[0] == 'a' and '*' in s_[1][1:] and sib.locals[s_[1][0]] == '&mut f64']
+    paggs = [(bb, s_) for bb, s_ in sib.aggregates() if s_[2][2] == 'core::Precedence']
+    bad9 = []
+    for bb, s_ in paggs:
+        og = origins(sib, s_[2][5][1]) if len(s_[2][5]) > 1 else set()
+        if not og or any(o[0] in ('const', 'agg') for o in og):
+            bad9.append((bb, sorted(str(o[:3]) for o in og)))
+    if bad9:
+        rep.viol('R3.9', 'eval::set_index|precedence|assoc-reset', 'set_index rebuilds the Precedence of a function with a fixed associativity (%s): assigning `^::precedence` makes a right-associative operator left-associative' % bad9[0][1], sib.loc(bad9[0][0]))
+    elif stores or paggs:
+        rep.ok('R3.9', 'set_index precedence arm', 'level written %s; associativity untouched' % ('through &mut f64' if stores else 'by rebuilding with the old Assoc'))
+    else:
+        rep.error('R3.9', 'set_index: the write of a precedence level was not found')
     rep.undecided += ['the grouping theorem (stack invariant argument) is on paper only', 'n-ary behaviour of each chainable builtin']
     return META
 
